@@ -931,6 +931,10 @@ class Sym:
         if depth > 40 or not isinstance(cv[3], str) or not cv[3].endswith(("Fn::call", "FnMut::call_mut", "FnOnce::call_once")) or len(cv[2]) != 2:
             return cv
         f = strip_sym(cv[2][0])
+        if isinstance(f, tuple) and f[:2] == ("const", "fn"):
+            tup = strip_sym(cv[2][1])
+            if tup[0] == "agg" and tup[1] == "tuple":
+                return ("call", f[2], tuple(tup[3]), f[2])
         if not (isinstance(f, tuple) and f and f[0] == "agg" and f[1] == "closure"):
             return cv
         cf = self.fn.crate.by_path.get(f[5])
@@ -1511,3 +1515,34 @@ class InlinedFn(Fn):
         self.base = base
         self.inlined = inlined
         self.children = [InlinedFn(ch, self) for ch in base.children] + [InlinedFn(ch, self, nm) for ch, nm in extra]
+
+    @property
+    def body(self):
+        if self._body is None:
+            self._body = Body(self, self.j["mir"])
+            self._devirtualise()
+        return self._body
+
+    def _devirtualise(self):
+        """Calls through a function pointer whose value is a known function item (passed down from the caller of a
+        spliced helper, possibly through a closure capture) become direct calls of that function."""
+        b = self._body
+        todo = [i for i, blk in enumerate(b.blocks) if (blk.get("t") or {}).get("k") == "call" and "callee" not in blk["t"] and "callee_op" in blk["t"]]
+        if not todo:
+            return
+        sy = Sym(self)
+        new_blocks = None
+        for i in todo:
+            t = b.blocks[i]["t"]
+            try:
+                s_ = strip_sym(sy.operand(t["callee_op"]))
+            except RecursionError:
+                continue
+            if isinstance(s_, tuple) and s_[:2] == ("const", "fn"):
+                if new_blocks is None:
+                    new_blocks = list(b.blocks)
+                new_blocks[i] = dict(b.blocks[i], t=dict(t, callee=s_[2], resolved=s_[2], rkind="item", devirt=True))
+        if new_blocks is not None:
+            mir = dict(self.j["mir"], blocks=new_blocks)
+            self.j["mir"] = mir
+            self._body = Body(self, mir)
